@@ -80,6 +80,7 @@ def canon_impl(i):
         if isinstance(e, dict):
             e.pop("hits", None)
             e.pop("why", None)
+            e.pop("body", None)
             if isinstance(e.get("spy"), dict):
                 e["spy"].pop("url", None)
     return i
@@ -116,7 +117,7 @@ def upstream_diff(ep, ua, us, single_valued, viol, hits):
     # known finding: a header collected more than once, first value only at the HTTP based services (the echoed
     # values are query-escaped, so a comma can only be the separator of the joined list)
     if ep != "envoy" and not single_valued and [p[0] for p in ha] == [p[0] for p in hs] and \
-            all(x[1] == y[1].split(",")[0] for x, y in zip(ha, hs)):
+            all(x[1] == y[1] or x[1] == y[1].split(",")[0] for x, y in zip(ha, hs)):
         hits.append(KF_FIRST)
     else:
         viol.append((ep, "upstream.headers", ha, hs))
@@ -141,6 +142,9 @@ def spec_diff(i, m):
             continue
         if a.get("dec") != s.get("dec"):
             viol.append((ep, "decision", a.get("dec"), s.get("dec")))
+            continue
+        if a.get("status") != s.get("status"):
+            viol.append((ep, "status", a.get("status"), s.get("status")))
             continue
         sa, ss = a.get("spy"), s.get("spy")
         if (sa is None) != (ss is None):
@@ -167,6 +171,21 @@ def url_diff(i):
     return urls if len(set(urls.values())) > 1 else None
 
 
+def body_diff(case, i):
+    """`respond.verbose` (not modelled): a refusal carries an error body exactly if verbose errors are configured — at
+    all three entry points. Compared for requests without an `Accept` line (the negotiation of the body's format is
+    C12's subject) and other than HEAD."""
+    if not isinstance(i, dict) or "load" in i or suspicious(i):
+        return None
+    r = case["req"]
+    if r["method"] == "HEAD" or any(n.lower() == "accept" for n, _ in r["headers"]):
+        return None
+    verbose = bool((case.get("respond") or {}).get("verbose"))
+    bad = {ep: i[ep].get("body") for ep in EPS
+           if isinstance(i.get(ep), dict) and i[ep].get("dec") != "ok" and "body" in i[ep] and i[ep]["body"] != verbose}
+    return bad or None
+
+
 def one(exe, case):
     i = vlib.run_cases([exe], [case])[0]
     if suspicious(i):
@@ -178,12 +197,32 @@ def one(exe, case):
 # ---------------------------------------------------------------------------------------------------------------
 # shrinking
 
+DEFAULT_CODES = {"argument": 400, "authentication": 401, "authorization": 403, "communication": 502, "internal": 500,
+                 "norule": 404}
+
+
+def codes_distinct(codes):
+    """the effective status of every error class tells the class (what the generator guarantees)"""
+    eff = [codes.get(k) or d for k, d in DEFAULT_CODES.items()]
+    return len(set(eff)) == len(eff) and not any(200 <= e < 300 for e in eff)
+
+
 def candidates(cur):
     """smaller variants of a case, most aggressive first"""
     if cur.get("default") is not None:
         c = copy.deepcopy(cur)
         c.pop("default")
         yield c
+    rc = cur.get("respond") or {}
+    if rc.get("verbose"):
+        c = copy.deepcopy(cur)
+        c["respond"]["verbose"] = False
+        yield c
+    for k in sorted(rc.get("codes") or {}):
+        c = copy.deepcopy(cur)
+        del c["respond"]["codes"][k]
+        if codes_distinct(c["respond"]["codes"]):
+            yield c
     if len(cur["sets"]) > 1:
         for si in range(len(cur["sets"])):
             c = copy.deepcopy(cur)
@@ -212,6 +251,11 @@ def candidates(cur):
                     c["sets"][si]["rules"][ri]["routes"][ti]["pp"] = []
                     yield c
             pipe = r["pipe"]
+            for flag in ("deny", "comm"):
+                if pipe.get(flag):
+                    c = copy.deepcopy(cur)
+                    c["sets"][si]["rules"][ri]["pipe"].pop(flag)
+                    yield c
             for ai in range(len(pipe["authz"])):
                 c = copy.deepcopy(cur)
                 del c["sets"][si]["rules"][ri]["pipe"]["authz"][ai]
@@ -311,6 +355,17 @@ def features(case):
         f.append("https")
     if "default" in case:
         f.append("default-rule")
+    if any(gen_entryview.canon(n).startswith("X-C13-") for n in names):
+        f.append("client-sends-pipeline-header")
+    rc = case.get("respond") or {}
+    if rc.get("codes"):
+        f.append("respond-codes-configured")
+    if rc.get("verbose"):
+        f.append("respond-verbose")
+    if any(ru["pipe"].get("deny") for st in case["sets"] for ru in st["rules"]):
+        f.append("rule-with-unauthorized-authenticator")
+    if any(ru["pipe"].get("comm") for st in case["sets"] for ru in st["rules"]):
+        f.append("rule-with-unreachable-contextualizer")
     return f
 
 
@@ -350,7 +405,7 @@ def run(R):
     n_rerun = rerun_suspicious(exe, cases, impl)
     model = run_parallel(vlib.driver_cmd(), cases, workers)
 
-    bad_model, bad_spec, bad_url = [], [], []
+    bad_model, bad_spec, bad_url, bad_body = [], [], [], []
     hits = {KF_HOST: 0, KF_FIRST: 0}
     decs, feats = {}, {}
     nontriv = set()
@@ -369,6 +424,8 @@ def run(R):
             n_wellformed += 1
             if url_diff(i):
                 bad_url.append((c, i, m, url_diff(i)))
+            if body_diff(c, i):
+                bad_body.append((c, i, m, body_diff(c, i)))
         rm = vlib.res_of(m)
         if isinstance(rm, dict) and "load" in rm:
             n_rejected += 1
@@ -389,7 +446,11 @@ def run(R):
                 "wildcards, path params, methods, hosts, scheme, allow_encoded_slashes, backtracking), each rule with "
                 "a pipeline of real mechanisms reading the view: cel authorizer expressions and `if` conditions over "
                 "method / URL parts / captures / headers / cookies, header and cookie finalizers whose templates echo "
-                "captures, headers, cookies, body, URL parts; optionally a default rule. Each case goes through the "
+                "captures, headers, cookies, body, URL parts, optionally an `unauthorized` authenticator or a "
+                "contextualizer with an unreachable endpoint (so that every error class occurs); optionally a default "
+                "rule; a response configuration (`respond.verbose`, `respond.with.<class>.code` tables with pairwise "
+                "different codes, the same block for decision and proxy service, Envoy using the decision's); in 30 % "
+                "the client itself sends headers the pipeline sets for the upstream. Each case goes through the "
                 "real decision, proxy and Envoy ext_authz services and through the Lean model and reference "
                 "semantics. Non-trivial = a rule (or the default rule) was reached, some finalizer echoes the view, "
                 "and the request has a feature in which the carriers differ (escape in the path, query, repeated or "
@@ -402,7 +463,7 @@ def run(R):
         "known_finding_hits": dict(hits),
         "samples": [gen[0]] if gen else cases[:1],
         "impl_vs_model_disagreements": len(bad_model), "impl_vs_spec_disagreements": len(bad_spec),
-        "url_string_disagreements": len(bad_url), "cases_run_again_after_executor_failure": n_rerun,
+        "url_string_disagreements": len(bad_url), "verbose_error_body_disagreements": len(bad_body), "cases_run_again_after_executor_failure": n_rerun,
     })
     R.assumptions += [
         "Envoy's population of CheckRequest is an assumption (Model `toCheck`, harness `c13ToCheck`, compared with each "
@@ -417,6 +478,13 @@ def run(R):
         "one Cookie line; outside them only impl = model is checked",
         "no trusted proxies configured; scheme = transport of the listener (TLS or not); client IP addresses are not "
         "part of the logical request",
+        "what the upstream application is shown for a header = the client's lines of that name, replaced by the value "
+        "the entry point hands over: the API gateway in front of the decision service replaces the request header by "
+        "the response header, Envoy applies OkHttpResponse.headers options with `append` unset as add-or-override "
+        "(documented contract), the proxy's upstream is observed directly; cookies the client sends beside pipeline "
+        "cookies are not compared",
+        "respond.verbose is varied but not modelled: only the presence of an error body is compared (requests without "
+        "Accept line, not HEAD); the status codes of the classes are pairwise different in every generated table",
         "upstream header / cookie names live in a reserved namespace (X-C13-*, c13u-*) so that they can be told from "
         "what the client sent (precedence of pipeline headers over client headers is C15)",
     ]
@@ -454,6 +522,14 @@ def run(R):
             si, sm = one(exe, sc)
             R.violation("Request.URL.String() differs between the entry points for one logical request: "
                         + json.dumps(url_diff(si)), {"case": sc, "impl": si, "kind": "impl-vs-impl"}, no_input=False)
+        for c, i, m, b in bad_body[:2]:
+            sc = shrink(c, lambda x: body_diff(x, one(exe, x)[0]) is not None)
+            si, sm = one(exe, sc)
+            R.violation("respond.verbose = " + json.dumps(bool((sc.get("respond") or {}).get("verbose")))
+                        + " but the refusal of " + ", ".join(sorted(body_diff(sc, si) or b))
+                        + " does" + ("" if not (sc.get("respond") or {}).get("verbose") else " not")
+                        + " carry an error body, unlike at the other entry points",
+                        {"case": sc, "impl": si, "kind": "impl-vs-impl"}, no_input=False)
         for c, i, m, d in bad_model[:3]:
             sc = shrink(c, lambda x: bool(model_diff(*one(exe, x))))
             si, sm = one(exe, sc)
@@ -495,6 +571,9 @@ def replay(R, path):
                      "spec": m.get("spec") if isinstance(m, dict) else None})
     elif url_diff(i):
         R.violation("Request.URL.String() differs between the entry points: " + json.dumps(url_diff(i)),
+                    {"case": c, "impl": i})
+    elif body_diff(c, i):
+        R.violation("verbose error body differs between the entry points: " + json.dumps(body_diff(c, i)),
                     {"case": c, "impl": i})
     elif model_diff(i, m):
         R.violation("replay: implementation still differs from the model in " + ", ".join(model_diff(i, m)),
